@@ -181,4 +181,22 @@ theorem C02_cex_tuple_field_type :
       simp [unmarshalIntlike, hd5, hu, optU]
     simp [unmarshal, withPtr, stripPtr, unmarshalBase, dataBytes, unmarshalTupleSet, shorter, readBytesM, hd, goTypeOf,
       hus, hb]
+/-- null ≠ empty inside a UDT, kernel-checked on the model = replay input `rtsame 4 udt 2 a text b text us 2 a ptr s - b
+    nilptr ustruct 2 a ptr string b ptr string`: (a = EMPTY, b = null) is written 00 00 00 00 | ff ff ff ff and read
+    back as (pointer to "", nil) -/
+theorem C02_udt_null_vs_empty_witness :
+    marshal 4 (.udt ["a", "b"] [.text, .text]) (.udtstruct ["a", "b"] [.ptr (.str false []), .nilptr]) =
+      .ok (some [0, 0, 0, 0, 255, 255, 255, 255]) ∧
+    unmarshal 4 (.udt ["a", "b"] [.text, .text]) (.udtstruct ["a", "b"] [.ptr (.str false), .ptr (.str false)])
+      (some [0, 0, 0, 0, 255, 255, 255, 255]) = .ok (.udtstruct ["a", "b"] [.ptr (.str false []), .nilptr]) := by
+  have h0 : encInt (toS 32 0) = [0, 0, 0, 0] := by decide
+  have hm : encInt (-1) = [255, 255, 255, 255] := by decide
+  have d0 : decInt [0, 0, 0, 0] = 0 := by decide
+  have dm : decInt [255, 255, 255, 255] = -1 := by decide
+  have l1 : lookupIdx "a" ["a", "b"] 0 = some 0 := by decide
+  have l2 : lookupIdx "b" ["a", "b"] 0 = some 1 := by decide
+  constructor
+  · simp [marshal, udtAssemble, marshalNamed, seqItems, l1, l2, marshalScalar, marshalVarcharColumn, appendBytes, h0, hm]
+  · simp [unmarshal, withPtr, stripPtr, unmarshalBase, dataBytes, unmarshalUdtStruct, zeroOf, zeroOfs, shorter, readBytesM,
+      d0, dm, l1, l2, C12Frame.unmarshalScalar_text_str, wrapPtr]
 end C02
